@@ -92,7 +92,7 @@ static void shape_tree(void) {
     TN[i].id = i; TN[i].parent = par; TN[par].ch[TN[par].nch++] = i;
     TN[i].use_attr = (h >> 8) % 3 == 0;
     TN[i].use_exit = (h >> 12) % 3 == 0;
-    if (TN[i].use_attr) { TN[i].detached = (h >> 16) % 4 == 0; static const size_t ss[] = { 0, 16384, 65536, 262144 }; TN[i].stacksize = ss[(h >> 20) % 4]; }
+    if (TN[i].use_attr) { TN[i].detached = (h >> 16) % 4 == 0; static const size_t ss[] = { 0, 16384, 65536, 262144, 16392, 20000, 0, 70001 }; TN[i].stacksize = ss[(h >> 20) % 8];   /* also sizes that are no multiple of a page */ }
     if (TN[par].detached) TN[i].detached = 0;
   }
   /* a detached node must be a leaf of joinable work: its children are joined by itself, fine */
@@ -222,6 +222,27 @@ static void *self_thread(void *arg) {
   RC(pthread_mutex_lock(&det_mx)); det_done++; RC(pthread_cond_signal(&det_cv)); RC(pthread_mutex_unlock(&det_mx));
   return (void *)t;
 }
+/* create/exit churn on an explicit stack size that need not be a multiple of a page: later waves run on recycled stacks */
+static void *churn_thread(void *arg) {
+  volatile unsigned char pad[1024]; long t = (long)arg, s = 0;
+  for (int i = 0; i < 1024; i += 64) pad[i] = (unsigned char)(t + i);
+  sched_yield();
+  for (int i = 0; i < 1024; i += 64) s += pad[i];
+  return (void *)(s + t);
+}
+static void churn(void) {
+  static const size_t ss[] = { 16392, 20000, 16384, 30000, 70001, 65536 + 8 };
+  size_t sz = ss[mix(P[T_SEED], 555) % 6]; int k = 1 + (int)(mix(P[T_SEED], 556) % 4); long total = 0;
+  pthread_attr_t a; RC(pthread_attr_init(&a)); RC(pthread_attr_setstacksize(&a, sz));
+  size_t back = 0; RC(pthread_attr_getstacksize(&a, &back));
+  for (long w = 0; w < P[T_ROUNDS]; w++) {
+    pthread_t th[4];
+    for (long i = 0; i < k; i++) RC(pthread_create(&th[i], &a, churn_thread, (void *)(w * 4 + i)));
+    for (long i = 0; i < k; i++) { void *r = 0; RC(pthread_join(th[i], &r)); total += (long)r; }
+  }
+  RC(pthread_attr_destroy(&a));
+  LOG("churn stacksize=%zu readback=%zu waves=%ld k=%d total=%ld\n", sz, back, P[T_ROUNDS], k, total);
+}
 static void shape_misc(void) {
   int n = (int)(P[T_NTHREADS] % 12) + 1;
   det_done = 0;
@@ -233,6 +254,7 @@ static void shape_misc(void) {
   RC(pthread_mutex_unlock(&det_mx));
   int ok = 0; for (int i = 0; i < n; i++) ok += self_ok[i];
   LOG("misc n=%d joined=%d self-equal=%d id-equal=%d main-equal=%d\n", n, joined, ok, eq, pthread_equal(pthread_self(), pthread_self()) != 0);
+  churn();
 }
 
 static void interpret(void) {
